@@ -17,7 +17,7 @@ from vmon.libutil import load_definition, monitored
 
 LEVEL = "exploration"
 SHARDS = {"quick": 16, "thorough": 16}
-MUST = ["graph.walks", "valid.unconditional_inheritors", "kind.rename-qualified", "valid.base_container_also_nested", "corrupt.loaded_from_same_path", "graph.entry_kind_checks", "valid.parameter_and_container_share_a_name", "kind.repoint-to-other-kind", "graph.identity_checks", "graph.inheritor_checks", "corrupt.reject-expected", "corrupt.accept-expected",
+MUST = ["graph.walks", "valid.nested_twice_before_definition", "valid.unconditional_inheritors", "kind.rename-qualified", "valid.base_container_also_nested", "corrupt.loaded_from_same_path", "graph.entry_kind_checks", "valid.parameter_and_container_share_a_name", "kind.repoint-to-other-kind", "graph.identity_checks", "graph.inheritor_checks", "corrupt.reject-expected", "corrupt.accept-expected",
         "kind.rename-typeref", "kind.rename-paramref", "kind.rename-containerref", "kind.rename-baseref", "kind.dup-type", "kind.dup-param",
         "kind.dup-container-changed", "kind.delete-referenced", "kind.delete-unreferenced", "kind.base-cycle", "kind.nesting-cycle",
         "kind.self-base", "kind.self-nesting", "kind.repoint"]
@@ -351,6 +351,14 @@ def run(ctx):
             doc = ir.Doc(doc.types, doc.params, (ir.Container("ZZ_Archive", (("c", doc.root),) + tuple(("c", k_) for k_ in kids)),) + doc.containers,
                          doc.root, doc.system_name, doc.date)
             ctx.count("valid.base_container_also_nested")
+        if (i // 3) % 2 == 0:
+            # listed first: a container that embeds two containers not seen yet, the first of which embeds the second
+            # (Packet -> [Block, Stamp, Block], Block -> [Stamp]): every reference is the one registered Stamp / Block object
+            pname = doc.params[i % len(doc.params)].name
+            doc = ir.Doc(doc.types, doc.params, (ir.Container("ZZ_Packet", (("c", "ZZ_Block"), ("c", "ZZ_Stamp"), ("c", "ZZ_Block"))),
+                                                 ir.Container("ZZ_Block", (("c", "ZZ_Stamp"), ("p", pname))),
+                                                 ir.Container("ZZ_Stamp", (("p", pname),))) + doc.containers, doc.root, doc.system_name, doc.date)
+            ctx.count("valid.nested_twice_before_definition")
         if i % 3 == 2:
             # one or two containers inherit UNCONDITIONALLY (BaseContainer without RestrictionCriteria): they are inheritors all the same
             import dataclasses
